@@ -23,3 +23,4 @@ for p in $props; do
   LCM_SRC=/tmp/mut/$name/src VERIF_SEED=1 ./check $p --tier quick --no-minimise --no-evidence ${runs:+--runs $runs} 2>&1 | grep -E "^(done|VIOL|  viol|HARNESS|KNOWN)" | cut -c1-420 | head -4
 done
 rm -rf $snap
+[ -n "${KEEP_MUT:-}" ] || rm -rf /tmp/mut/$name   # pass KEEP_MUT=1 in the environment to keep the patched copy for LCM_SRC experiments
